@@ -248,15 +248,14 @@ path:                 /* at this point, p must point to an absolute path */
 
     if (p < q) {
       COAP_SET_STR(&uri->path, q - p, p);
-      p = q;
     }
   }
 
   /* Uri_Query */
-  if (len && *p == '?') {
-    ++p;
+  if (len && *q == '?') {
+    ++q;
     --len;
-    COAP_SET_STR(&uri->query, len, p);
+    COAP_SET_STR(&uri->query, len, q);
     len = 0;
   }
 
